@@ -152,6 +152,7 @@ pub fn cases(tier: Tier) -> (Vec<Case>, Value) {
     };
     let mut all: Vec<Program> = progs;
     all.extend(size_family(sn).into_iter().map(|x| x.3));
+    all.extend(extra_programs());
     let mut out = vec![];
     let mut idx = 0usize;
     for p in &all {
